@@ -99,6 +99,17 @@ def kw(case, keys=("MRTS", "RI", "max_tau")):
     m = case.get("mrts")
     if "MRTS" in keys and m is not None:
         k["MRTS"] = m
+        t = case.get("mrts_type")
+        if t and not isinstance(m, str):
+            # the same number carried by another numeric type
+            if t == "int" and float(m).is_integer():
+                k["MRTS"] = int(m)
+            elif t == "np.int64" and float(m).is_integer():
+                k["MRTS"] = np.int64(int(m))
+            elif t == "np.float32" and float(np.float32(m)) == float(m):
+                k["MRTS"] = np.float32(m)
+            elif t == "np.float64":
+                k["MRTS"] = np.float64(m)
     if "RI" in keys and case.get("ri"):
         k["RI"] = True
     if "max_tau" in keys and "max_tau" in case and case["max_tau"] != "omit":
